@@ -585,12 +585,21 @@ Definition l_inv (l : list T) : list T :=
 Definition l_neg (l : list T) : list T := map (o_opp O) l.
 Definition lvf : vfuns (list T) := mkVfuns (list T) l_unit l_inv l_neg [].
 
-(* Vector3d.azimuth: x[isclose(x, 0)] = 0; y[isclose(y, 0)] = 0 are written
-   into COPIES of the x and y columns before arctan2 *)
-Definition isclose0 (x : T) : bool := o_leb O (o_abs O x) (o_ofQ O 1 100000000).
-Definition az_clean (v : list T) : list T :=
+(* Vector3d.azimuth: atol = 1e-8 * self.radial; x[isclose(x, 0, atol=atol)] = 0;
+   y[isclose(y, 0, atol=atol)] = 0 are written into COPIES of the x and y columns
+   before arctan2 (radial = sqrt(x**2 + y**2 + z**2)) *)
+Definition az_atol (v : list T) : T :=
   match v with
-  | x :: y :: r => (if isclose0 x then o_ofZ O 0 else x) :: (if isclose0 y then o_ofZ O 0 else y) :: r
+  | x :: y :: z :: _ =>
+      o_mul O (o_ofQ O 1 100000000)
+        (o_sqrt O (o_add O (o_add O (o_powN O x 2) (o_powN O y 2)) (o_powN O z 2)))
+  | _ => o_ofQ O 1 100000000
+  end.
+Definition isclose0 (atol x : T) : bool := o_leb O (o_abs O x) atol.
+Definition az_clean (v : list T) : list T :=
+  let atol := az_atol v in
+  match v with
+  | x :: y :: r => (if isclose0 atol x then o_ofZ O 0 else x) :: (if isclose0 atol y then o_ofZ O 0 else y) :: r
   | _ => v
   end.
 Definition az_value (v : list T) : T :=
